@@ -8,6 +8,7 @@
 //!   harness fccase                       (child mode of fcsched)
 
 mod fcsched;
+mod orderstress;
 mod puresweep;
 mod racestress;
 mod seqcase;
@@ -23,6 +24,7 @@ fn main() {
         Some("fcsched") => fcsched::main_fcsched(&args[1..]),
         Some("fccase") if args.len() == 1 => fcsched::main_fccase(),
         Some("racestress") => racestress::main_racestress(&args[1..]),
+        Some("orderstress") => orderstress::main_orderstress(&args[1..]),
         _ => {
             eprintln!(
                 "usage:\n  harness seqdiff <cases-file> <results-file> [--jobs N]\n  harness seqcase < case > result\n  harness puresweep <ops-file> <results-file>\n  harness fcsched <cases-file> <results-file> [--jobs N]\n  harness fccase < case > result"
